@@ -1235,8 +1235,13 @@ def ptr1(units, R, fn_name='get_item_from_pointer'):
                     is_null = True
         if is_null:
             continue
-        bs = sg.bytes_at(cur) if cur in sg.readers else bp.ALL
-        if sg.start != 'entry':
+        # the text may be read through the parameter itself or through parameter[index]
+        rcur = cur
+        via = [c_ for c_ in sg.readers if c_ == cur or (isinstance(c_, tuple) and c_[0] == cur)]
+        if cur not in sg.readers and len(via) == 1:
+            rcur = via[0]
+        bs = sg.bytes_at(rcur) if rcur in sg.readers else bp.ALL
+        if sg.start != 'entry' and rcur == cur:
             # what is known about the byte under the cursor whenever the loop head this path starts from is reached
             at_head = frozenset()
             for inc in ex.segments:
